@@ -4,7 +4,8 @@ Gallina (Gen/ShapeGen.v).
 
 Translated (read with `ast` only, never imported):
   teal/instructions/parse_instruction.py
-      every lambda of `parser_rules`            -> the entries of shape_rules_gen : list (string * (string -> py pval))
+      _parse_int, _is_int (a lambda)            -> parse_int_x_gen, is_int_x_gen   (again: with exception classes)
+      every lambda of `parser_rules`            -> the entries of shape_rules_gen : list (string * (string -> pyx pval))
       handle_gtxn / handle_gtxna / handle_gtxnas -> handle_gtxn_gen / handle_gtxna_gen / handle_gtxnas_gen
   teal/instructions/parse_transaction_field.py
       _parse_int (the module's own copy)        -> parse_int_tx_gen
@@ -15,17 +16,20 @@ The hand-written counterpart is Model/Parse.v (parse_shape, parse_tx_field, pars
 shape TAG that tools/translate.py assigns to the unparsed text of each lambda; Lemmas/ShapeGenLemmas.v relates the
 functions generated here to it, rule by rule of the regenerated table Gen/Tables.parser_rules.
 
-Reading of Python in Gallina.  Everything of tools/translate_line.py applies (its docstring: `py A := option A`, None =
-"a Python exception was raised", classes NOT distinguished; `str` = Coq `string` under the ASCII assumption; lengths and
-indices are `nat`; the `int` returned by int() is a `Z`).  The str method table of Gen/LineGen.v is imported, not
-repeated: startswith, strip, split(c), slicing s[a:], xs[k], xs[k:], join, int(s, base).  `_parse_int` and `_is_int` of
-parse_instruction.py are the regenerated LineGen.parse_int_gen / LineGen.is_int_gen.  In addition (fixed prelude
+Reading of Python in Gallina.  The value reading of tools/translate_line.py applies (its docstring: `str` = Coq `string`
+under the ASCII assumption; lengths and indices are `nat`; the `int` returned by int() is a `Z`), and the str method
+table of Gen/LineGen.v is imported, not repeated: startswith, isdigit, strip, split(c), slicing s[a:], xs[k], xs[k:],
+join, int(s, base).  EXCEPTIONS, however, are read BY CLASS here: `pyx A := Val a | Raise e`, e one of ValueError
+(raised by int()), IndexError (xs[k]), KeyError (D[k]); Gen/LineGen.v reads all of them as None (`erase`).  For that
+`_parse_int` and `_is_int` of parse_instruction.py are translated again, into this monad (parse_int_x_gen,
+is_int_x_gen; Lemmas/ShapeGenLemmas.v: erase of them = LineGen.parse_int_gen / is_int_gen).  Sub-expressions are
+evaluated left to right, so the FIRST exception Python would raise is the one returned.  In addition (fixed prelude
 below, fingerprinted; tools/test_translate_shape.py compares it with the running interpreter):
   * s.split() without argument        -> str_split_ws s       (runs of ASCII whitespace separate, no empty pieces)
   * s.replace(c, "") for a character  -> str_remove_char s c
   * list(map(f, xs))                  -> list_map_py f xs     (left to right, the first exception wins)
   * D[k] for a module-level dict of field classes -> table_get <table> k, where <table> is the association list
-    Gen/Tables.v regenerates from THE SAME dict display (tx_fields, tx_array_fields, global_fields, ..): KeyError = None
+    Gen/Tables.v regenerates from THE SAME dict display (tx_fields, tx_array_fields, global_fields, ..): KeyError
   * `for field, obj in D.items(): body` -> a fold over <table> in insertion order (= Python's dict order); `field`
     is the key, `obj` the class object, read as its table entry (class name, version)
   * values.  A constructed object `C(a1, .., an)` is `VObj "C" [v1; ..; vn]` : pval -- the class NAME and the positional
@@ -74,13 +78,40 @@ FIELD_FUNCS = {
 }
 HANDLERS = ["handle_gtxn", "handle_gtxna", "handle_gtxnas"]
 ANNOT = {"str": STR, "bool": BOOL}
-RESERVED = {"xs", "ret", "bind", "pval", "py"}
+RESERVED = {"xs", "retx", "bindx", "pval", "pyx", "exn", "raising"}
 
 PRELUDE = r"""
 (* ====================================================================== *)
 (* PRELUDE (fixed text; its sha256 is pinned in tools/translate_shape.py)                                   *)
 (* ====================================================================== *)
-(* The str method table and the exception monad are those of Gen/LineGen.v / Gen/KeysGen.v (imported).  Added here: *)
+(* The str method table is the one of Gen/LineGen.v (imported).  Added here: *)
+
+(* ---- exceptions BY CLASS.  Gen/LineGen.v reads "an exception was raised" as None; here the class is kept, for the
+   three classes the translated code can raise: int() raises ValueError, xs[k] IndexError, D[k] KeyError. *)
+Inductive exn := ValueError | IndexError | KeyError
+  | OtherError.   (* never raised by the translated code: the class of a model message that names none of the three *)
+Inductive pyx (A : Type) : Type := Val (a : A) | Raise (e : exn).
+Arguments Val {A} a.
+Arguments Raise {A} e.
+Definition retx {A : Type} (a : A) : pyx A := Val a.
+Definition bindx {A B : Type} (m : pyx A) (k : A -> pyx B) : pyx B :=
+  match m with Val a => k a | Raise e => Raise e end.
+(* `a and b`, `a or b`, `not a`, `e1 if c else e2` on computations (short circuit = Python's) *)
+Definition andEx (a b : pyx bool) : pyx bool :=
+  match a with Val true => b | Val false => Val false | Raise e => Raise e end.
+Definition orEx (a b : pyx bool) : pyx bool :=
+  match a with Val true => Val true | Val false => b | Raise e => Raise e end.
+Definition notEx (a : pyx bool) : pyx bool := match a with Val b => Val (negb b) | Raise e => Raise e end.
+Definition ifEx {A : Type} (c : pyx bool) (a b : pyx A) : pyx A :=
+  match c with Val true => a | Val false => b | Raise e => Raise e end.
+(* a primitive of Gen/LineGen.v that raises one class only *)
+Definition raising {A : Type} (e : exn) (m : py A) : pyx A := match m with Some a => Val a | None => Raise e end.
+(* int(s, base): ValueError *)
+Definition int_x (s : string) (base : N) : pyx Z := raising ValueError (py_int s base).
+(* xs[k] for k >= 0: IndexError *)
+Definition subscript_x {A : Type} (xs : list A) (k : nat) : pyx A := raising IndexError (subscript xs k).
+(* the outcome with the class forgotten (the reading of Gen/LineGen.v) *)
+Definition erase {A : Type} (m : pyx A) : py A := match m with Val a => Some a | Raise _ => None end.
 
 (* ---- Python values handed to a constructor: C(a1, .., an) is VObj "C" [a1; ..; an] *)
 Inductive pval :=
@@ -109,21 +140,21 @@ Fixpoint str_remove_char (s : string) (c : ascii) : string :=
   end.
 
 (* ---- list(map(f, xs)): f is applied left to right, the first exception propagates *)
-Fixpoint list_map_py {A B : Type} (f : A -> py B) (xs : list A) : py (list B) :=
+Fixpoint list_map_py {A B : Type} (f : A -> pyx B) (xs : list A) : pyx (list B) :=
   match xs with
-  | [] => ret []
-  | x :: t => bind (f x) (fun y => bind (list_map_py f t) (fun r => ret (y :: r)))
+  | [] => retx []
+  | x :: t => bindx (f x) (fun y => bindx (list_map_py f t) (fun r => retx (y :: r)))
   end.
 
 (* ---- the module-level dicts of field classes: Gen/Tables.v lists (text, (class name, version)) in source order *)
 (* D[k]: the class object; KeyError *)
-Fixpoint table_get (d : list (string * (string * N))) (k : string) : py (string * N) :=
-  match d with [] => None | (k', v) :: t => if String.eqb k' k then Some v else table_get t k end.
+Fixpoint table_get (d : list (string * (string * N))) (k : string) : pyx (string * N) :=
+  match d with [] => Raise KeyError | (k', v) :: t => if String.eqb k' k then Val v else table_get t k end.
 (* obj(a1, .., an) for a class object taken from such a dict *)
 Definition new_field (obj : string * N) (args : list pval) : pval := VObj (fst obj) args.
 """
 
-PRELUDE_SHA256 = "51929e17ec5d9641070c9a07cd1215b5b1da334df5b89b2411b25bf11ff4b922"
+PRELUDE_SHA256 = "5da639e5ae752f1c918fd8896786dd31aa9b94e1423d455a3f1a55ac30d3adf9"
 
 
 def table_fingerprint():
@@ -180,14 +211,14 @@ def seq(env, parts, build, monadic_result=False):
     body = build(*atoms)
     if not binds and not monadic_result:
         return body, True
-    out = body if monadic_result else f"(ret {body})"
+    out = body if monadic_result else f"(retx {body})"
     for v, t in reversed(binds):
-        out = f"(bind {t} (fun {v} =>\n{out}))"
+        out = f"(bindx {t} (fun {v} =>\n{out}))"
     return out, False
 
 
 def mon(t, pure):
-    return f"(ret {t})" if pure else t
+    return f"(retx {t})" if pure else t
 
 
 def str_const(n):
@@ -233,7 +264,7 @@ def expr(env, e):
             t, ty, pure = expr(env, e.operand)
             if ty != BOOL:
                 fail(p, e, f"`not` on a value of type {ty}")
-            return (f"(negb {t})" if pure else f"(notE {t})"), BOOL, pure
+            return (f"(negb {t})" if pure else f"(notEx {t})"), BOOL, pure
         fail(p, e, "unary operator in " + ast.unparse(e))
     if isinstance(e, ast.BinOp):
         if not isinstance(e.op, ast.Add):
@@ -250,7 +281,7 @@ def expr(env, e):
             if ty != BOOL:
                 fail(p, v, f"operand of and/or of type {ty}")
         allpure = all(pure for _, _, pure in parts)
-        f = ("andb" if allpure else "andE") if isinstance(e.op, ast.And) else ("orb" if allpure else "orE")
+        f = ("andb" if allpure else "andEx") if isinstance(e.op, ast.And) else ("orb" if allpure else "orEx")
         terms = [t if allpure else mon(t, pure) for t, _, pure in parts]
         out = terms[-1]
         for t in reversed(terms[:-1]):
@@ -286,7 +317,7 @@ def expr(env, e):
             return f"(if {c} then {a} else {b})", ty, True
         if cp:
             return f"(if {c}\n then {mon(a, ap)}\n else {mon(b, bp)})", ty, False
-        return f"(ifE {c}\n{indent(mon(a, ap))}\n{indent(mon(b, bp))})", ty, False
+        return f"(ifEx {c}\n{indent(mon(a, ap))}\n{indent(mon(b, bp))})", ty, False
     if isinstance(e, ast.Subscript):
         return subscript_expr(env, e)
     if isinstance(e, ast.Call):
@@ -317,7 +348,7 @@ def subscript_expr(env, e):
     if bty != LSTR:
         fail(p, e, "index into a str")
     i, ip = nat_expr(env, sl)
-    out, _ = seq(env, [(b, bp), (i, ip)], lambda a, x: f"(subscript {a} {x})", monadic_result=True)
+    out, _ = seq(env, [(b, bp), (i, ip)], lambda a, x: f"(subscript_x {a} {x})", monadic_result=True)
     return out, STR, False
 
 
@@ -336,7 +367,7 @@ def call_expr(env, e):
             fail(p, e, f"dictionary key of type {kty}")
         tb = ctx.tables[fn.value.id]
         v = ctx.fresh()
-        out, _ = seq(env, [(k, kp)], lambda a: f"(bind (table_get {tb} {a}) (fun {v} =>\n(ret (new_field {v} []))))", monadic_result=True)
+        out, _ = seq(env, [(k, kp)], lambda a: f"(bindx (table_get {tb} {a}) (fun {v} =>\n(retx (new_field {v} []))))", monadic_result=True)
         return out, VAL, False
     # ---- method calls
     if isinstance(fn, ast.Attribute):
@@ -380,6 +411,11 @@ def call_expr(env, e):
             ch = coq_char(e.args[0].value)
             out, pure = seq(env, [(r, rp)], lambda x: f"(str_split_char {x} {ch})")
             return out, LSTR, pure
+        if m == "isdigit":
+            if e.args:
+                fail(p, e, "isdigit with arguments")
+            out, pure = seq(env, [(r, rp)], lambda x: f"(str_isdigit {x})")
+            return out, BOOL, pure
         if m == "strip":
             if e.args:
                 fail(p, e, "strip with arguments")
@@ -425,7 +461,7 @@ def call_expr(env, e):
         a, aty, ap = expr(env, e.args[0])
         if aty != STR:
             fail(p, e, f"int() of a value of type {aty}")
-        out, _ = seq(env, [(a, ap)], lambda x: f"(py_int {x} {base}%N)", monadic_result=True)
+        out, _ = seq(env, [(a, ap)], lambda x: f"(int_x {x} {base}%N)", monadic_result=True)
         return out, ZT, False
     if name == "list" and len(e.args) == 1 and not e.keywords:
         m = e.args[0]
@@ -545,7 +581,7 @@ def block(env, stmts, fall, retk, rty):
         rest_t = rest_of(env.child(**{name: ty}))
         if pure:
             return f"(let {name} := {t} in\n{rest_t})"
-        return f"(bind {t} (fun {name} =>\n{rest_t}))"
+        return f"(bindx {t} (fun {name} =>\n{rest_t}))"
     if isinstance(st, ast.If):
         c, cty, cpure = expr(env, st.test)
         if cty != BOOL:
@@ -562,7 +598,7 @@ def block(env, stmts, fall, retk, rty):
             else_t = rest_of(env)
         if cpure:
             return f"(if {c}\n then\n{indent(then_t)}\n else\n{else_t})"
-        return f"(ifE {c}\n{indent(then_t)}\n{else_t})"
+        return f"(ifEx {c}\n{indent(then_t)}\n{else_t})"
     if isinstance(st, ast.For):
         return for_loop(env, st, rest_of, retk, rty)
     fail(p, st, "statement " + ast.unparse(st)[:60])
@@ -595,7 +631,7 @@ def for_loop(env, st, rest_of, retk, rty):
     ctx.outer_vars = set(env.vars)
     envl = env.child(**{a: STR, b: CLS})
     call = f"({fname} xs {' '.join(ro)})"
-    body_t = block(envl, st.body, lambda env2: call, lambda t, pure: seq(env, [(t, pure)], lambda v: f"(ret (Some {v}))", monadic_result=True)[0], rty)
+    body_t = block(envl, st.body, lambda env2: call, lambda t, pure: seq(env, [(t, pure)], lambda v: f"(retx (Some {v}))", monadic_result=True)[0], rty)
     ctx.in_loop = False
     # names assigned in the body are local to the loop function: they must not be read after the loop
     local = assigned_names(st.body) | {a, b}
@@ -603,9 +639,9 @@ def for_loop(env, st, rest_of, retk, rty):
     rel = os.path.relpath(p, T)
     L = [
         f"(* {rel}: the loop `for {a}, {b} in {it.func.value.id}.items()` of {ctx.pyname} (line {st.lineno}); no state; Some v: the function returns v *)",
-        f"Fixpoint {fname} (xs : {FIELD_TABLE}) {params} {{struct xs}} : py (option {paren(rty)}) :=",
+        f"Fixpoint {fname} (xs : {FIELD_TABLE}) {params} {{struct xs}} : pyx (option {paren(rty)}) :=",
         "  match xs with",
-        "  | [] => (ret None)",
+        "  | [] => (retx None)",
         f"  | ({a}, {b}) :: xs =>\n{indent(body_t)}",
         "  end.",
     ]
@@ -615,7 +651,7 @@ def for_loop(env, st, rest_of, retk, rty):
         fail(p, st, "the loop target shadows a variable")
     after = rest_of(env_after)
     r, v = ctx.fresh(), ctx.fresh()
-    return f"(bind ({fname} {ctx.tables[it.func.value.id]} {' '.join(ro)}) (fun {r} =>\n(match {r} with\n | Some {v} => {retk(v, True)}\n | None =>\n{indent(after)}\n end)))"
+    return f"(bindx ({fname} {ctx.tables[it.func.value.id]} {' '.join(ro)}) (fun {r} =>\n(match {r} with\n | Some {v} => {retk(v, True)}\n | None =>\n{indent(after)}\n end)))"
 
 
 def paren(t):
@@ -701,7 +737,7 @@ def translate_function(path, fn, coq, params, rty, funcs, tables):
     body = block(env, fn.body, None, lambda t, pure: mon(t, pure), rty)
     ps = " ".join(f"({n} : {t})" for n, t, _ in params)
     rel = os.path.relpath(path, T)
-    return list(ctx.hoisted) + [f"(* {rel}: {fn.name} (line {fn.lineno}) *)\nDefinition {coq} {ps} : py {paren(rty)} :=\n{indent(body, 2)}."]
+    return list(ctx.hoisted) + [f"(* {rel}: {fn.name} (line {fn.lineno}) *)\nDefinition {coq} {ps} : pyx {paren(rty)} :=\n{indent(body, 2)}."]
 
 
 def dict_is_plain(path, tree, name):
@@ -763,7 +799,25 @@ def emit_shape(outdir):
     w("(* ====================================================================== *)")
     nfun = 0
     # ---- the field parser modules
-    pi_funcs = {"_parse_int": ("parse_int_gen", [("x", STR, None)], ZT), "_is_int": ("is_int_gen", [("x", STR, None)], BOOL)}
+    pfn = find_function(pi, tree, "_parse_int")
+    sig = read_signature(pi, pfn, [("x", "str", STR)], ("int",))
+    for t in translate_function(pi, pfn, "parse_int_x_gen", sig, ZT, {}, {}):
+        w(t)
+        w("")
+    isint = [n for n in tree.body if isinstance(n, ast.AnnAssign) and isinstance(n.target, ast.Name) and n.target.id == "_is_int"]
+    if len(isint) != 1 or not isinstance(isint[0].value, ast.Lambda):
+        raise TranslateError(f"translator: {pi}: _is_int is not a single annotated lambda")
+    lam = isint[0].value
+    if [a.arg for a in lam.args.args] != ["x"] or lam.args.defaults or lam.args.vararg or lam.args.kwarg or lam.args.kwonlyargs or lam.args.posonlyargs or ast.unparse(isint[0].annotation) != "Callable[[str], bool]":
+        fail(pi, isint[0], "signature of _is_int")
+    ctx = Ctx(pi, "_is_int", "is_int_x_gen", {}, {})
+    t, ty, pure = expr(Env(ctx, {"x": STR}), lam.body)
+    if ty != BOOL:
+        fail(pi, lam, f"_is_int returns a value of type {ty}")
+    w(f"(* {PI_REL}: _is_int, a lambda (line {isint[0].lineno}) *)\nDefinition is_int_x_gen (x : string) : pyx bool :=\n{indent(mon(t, pure), 2)}.")
+    w("")
+    nfun += 2
+    pi_funcs = {"_parse_int": ("parse_int_x_gen", [("x", STR, None)], ZT), "_is_int": ("is_int_x_gen", [("x", STR, None)], BOOL)}
     for f, (mod, coq, params) in FIELD_FUNCS.items():
         path = os.path.join(T, mod)
         mtree = parse(path)
@@ -827,7 +881,7 @@ def emit_shape(outdir):
             fail(pi, lam, f"rule returns a value of type {ty}")
         entries.append(f"  (* line {elt.lineno} *) ({coq_str(key)}, fun {x} =>\n{indent(mon(t, pure), 6)})")
     w(f"(* {PI_REL}: parser_rules (line {rules[0].lineno}): for each rule the key and the lambda, in source order *)")
-    w("Definition shape_rules_gen : list (string * (string -> py pval)) := [")
+    w("Definition shape_rules_gen : list (string * (string -> pyx pval)) := [")
     w(";\n".join(entries))
     w("].")
     os.makedirs(outdir, exist_ok=True)
